@@ -5,7 +5,7 @@ From Coq Require Import List ZArith.
 Import ListNotations.
 
 Definition push_call (w : world) (c : option tm) : world :=
-  mk_w (word w) (clock w) (owner w) (oprog w ++ [c]) (SemModel.last w) (posters w) (nP w) (nV w) (ret0 w) (early w).
+  mk_w (word w) (clock w) (owner w) (oprog w ++ [c]) (SemModel.last w) (posters w) (nP w) (nV w) (cbeg w) (rets w).
 Definition add_post (w : world) (k : nat) : world :=   (* poster k is about to call V once more *)
   match nth_error (posters w) k with
   | Some (p, n) => set_poster w k (p, S n)
